@@ -9,6 +9,19 @@ the 16 lowercase hex digits of its IEEE-754 bit pattern (`nan` for NaN).
   chol  <16 J>   -> ok <10 U> <10 θ> | err          cholesky_decompose_upper / theta_from_pseudoinertia on an
                                                     arbitrary (possibly unsymmetric / indefinite) 4×4 array
   apply <10 θ>   -> body <10>                       mass, ipos(3), fullinertia(6) written by apply_body_theta_inertia
+  prog infer|apply -> the statement tokens of `inferProg` / `applyProg` (compared with the statements extracted
+                      from the Python source by translate/c47_protocol.py)
+  aspec <ifg0> <expl0> <hasgeo> <cfg> <10 θ>
+                 -> spec <ifg> <explicitinertial> body <10> inertia <3> iquat <nan | 4> | err <kind>
+                    the interpretation `applyTheta` of `applyProg` on a caller's spec with
+                    compiler.inertiafromgeom = ifg0, a body with (expl0 = 1) or without explicit inertial and with
+                    (hasgeo = 1) or without mass-carrying geoms; <cfg> is an opaque word (the implementation side
+                    decodes the full scene from it).  The query-compile numbers are placeholders: every field
+                    they reach is overwritten by the program (theorem applyTheta_eq).
+  resolve <ifg> <expl> <iposdef> <fulldef> <ialtquat> <hasgeo> <balance> <19 numbers> <29 observations>
+                 -> ok <11> | err <kind>            `compileBody` (mass-property part of mjCBody::Compile) on
+                    numbers = mass ipos(3) iquat(4) inertia(3) fullinertia(6) boundmass boundinertia and the
+                    observed values of the abstract functions geo(11) eig(7) altq(4) bpos(3) bquat(4)
 anything else    -> bad-op
 -/
 open MjProof MjProof.Driver MjProof.LogChol
@@ -51,8 +64,120 @@ def upperList (u : Upper Float) : List Float :=
 def bodyList (b : BodyInertial Float) : List Float :=
   [b.mass, b.ipos0, b.ipos1, b.ipos2, b.fxx, b.fyy, b.fzz, b.fxy, b.fxz, b.fyz]
 
+def v3List (v : V3 Float) : List Float := [v.x, v.y, v.z]
+def q4List (q : Q4 Float) : List Float := [q.w, q.x, q.y, q.z]
+
+def optQuatStr : Option (Q4 Float) → String
+  | some q => hexs (q4List q)
+  | none => "nan"
+
+def bit? : String → Option Bool
+  | "0" => some false
+  | "1" => some true
+  | _ => none
+
+def ifg? : String → Option IFG
+  | "0" => some .off
+  | "1" => some .on
+  | "2" => some .auto
+  | _ => none
+
+def qid : Q4 Float := { w := 1.0, x := 0.0, y := 0.0, z := 0.0 }
+
+/-- placeholder environment of the `aspec` op (the numbers never reach the output) -/
+def aspecEnv (hasgeo : Bool) : CompileEnv Float :=
+  { geo := if hasgeo then
+      some { mass := 7.0, ipos := { x := 7.0, y := 7.0, z := 7.0 }, iquat := some qid,
+             inertia := { x := 7.0, y := 7.0, z := 7.0 } }
+    else none,
+    eig := fun f => some (qid, { x := f.xx, y := f.yy, z := f.zz }),
+    normq := id, bpos := { x := 9.0, y := 9.0, z := 9.0 }, bquat := qid, ialtQuat := true, altq := qid,
+    boundmass := 0.0, boundinertia := 0.0, balance := false }
+
+def aspecBody (expl : Bool) : SpecBody Float :=
+  if expl then
+    { explicitinertial := true, mass := 5.0, ipos := some { x := 5.0, y := 5.0, z := 5.0 }, iquat := some qid,
+      inertia := { x := 5.0, y := 5.0, z := 5.0 }, full := none }
+  else
+    { explicitinertial := false, mass := 0.0, ipos := none, iquat := some qid,
+      inertia := { x := 0.0, y := 0.0, z := 0.0 }, full := none }
+
+def specLine (s : SpecState Float) : String :=
+  let b := s.body
+  match b.ipos, b.full with
+  | some p, some f =>
+    s!"spec {s.ifg.code} {if b.explicitinertial then 1 else 0} body " ++
+      hexs ([b.mass] ++ v3List p ++ [f.xx, f.yy, f.zz, f.xy, f.xz, f.yz]) ++
+      " inertia " ++ hexs (v3List b.inertia) ++ " iquat " ++ optQuatStr b.iquat
+  | _, _ => "spec-undefined"
+
+def stepAspec (toks : List String) : String :=
+  match toks with
+  | a :: e :: g :: cfg :: rest =>
+    match ifg? a, bit? e, bit? g, rest.mapM floatOfBits? with
+    | some ifg0, some expl, some hasgeo, some xs =>
+      if cfg.isEmpty then "bad-op" else
+      match thetaOfList xs with
+      | none => "bad-op"
+      | some θ =>
+        match applyTheta (aspecEnv hasgeo) { ifg := ifg0, body := aspecBody expl, model := none } θ with
+        | .ok s => specLine s
+        | .error k => "err " ++ k.token
+    | _, _, _, _ => "bad-op"
+  | _ => "bad-op"
+
+def compiledLine (c : Compiled Float) : String :=
+  "ok " ++ hexs ([c.mass] ++ v3List c.ipos) ++ " " ++ optQuatStr c.iquat ++ " " ++ hexs (v3List c.inertia)
+
+def stepResolve (toks : List String) : String :=
+  match toks with
+  | a :: e :: ip :: fu :: ia :: g :: ba :: rest =>
+    match ifg? a, bit? e, bit? ip, bit? fu, bit? ia, bit? g, bit? ba, rest.mapM floatOfBits? with
+    | some ifg, some expl, some iposdef, some fulldef, some ialtq, some hasgeo, some bal, some xs =>
+      match xs with
+      | x_mass :: x_p0 :: x_p1 :: x_p2 :: x_q0 :: x_q1 :: x_q2 :: x_q3 ::
+        x_i0 :: x_i1 :: x_i2 :: x_f0 :: x_f1 :: x_f2 :: x_f3 :: x_f4 ::
+        x_f5 :: x_bm :: x_bi :: x_gm :: x_gp0 :: x_gp1 :: x_gp2 :: x_gq0 ::
+        x_gq1 :: x_gq2 :: x_gq3 :: x_gi0 :: x_gi1 :: x_gi2 :: x_eq0 :: x_eq1 ::
+        x_eq2 :: x_eq3 :: x_ed0 :: x_ed1 :: x_ed2 :: x_aq0 :: x_aq1 :: x_aq2 ::
+        x_aq3 :: x_bp0 :: x_bp1 :: x_bp2 :: x_bq0 :: x_bq1 :: x_bq2 :: x_bq3 :: [] =>
+        let env : CompileEnv Float :=
+          { geo := if hasgeo then
+              some { mass := x_gm, ipos := { x := x_gp0, y := x_gp1, z := x_gp2 },
+                     iquat := some { w := x_gq0, x := x_gq1, y := x_gq2, z := x_gq3 },
+                     inertia := { x := x_gi0, y := x_gi1, z := x_gi2 } }
+            else none,
+            -- the observed mjuu_fullInertia result of this line's fullinertia (NaN moments = it failed)
+            eig := fun _ => if x_ed0.isNaN then none else
+              some ({ w := x_eq0, x := x_eq1, y := x_eq2, z := x_eq3 }, { x := x_ed0, y := x_ed1, z := x_ed2 }),
+            normq := id,
+            bpos := { x := x_bp0, y := x_bp1, z := x_bp2 }, bquat := { w := x_bq0, x := x_bq1, y := x_bq2, z := x_bq3 },
+            ialtQuat := ialtq, altq := { w := x_aq0, x := x_aq1, y := x_aq2, z := x_aq3 },
+            boundmass := x_bm, boundinertia := x_bi, balance := bal }
+        let b : SpecBody Float :=
+          { explicitinertial := expl, mass := x_mass,
+            ipos := if iposdef then some { x := x_p0, y := x_p1, z := x_p2 } else none,
+            iquat := some { w := x_q0, x := x_q1, y := x_q2, z := x_q3 },
+            inertia := { x := x_i0, y := x_i1, z := x_i2 },
+            full := if fulldef then some { xx := x_f0, yy := x_f1, zz := x_f2, xy := x_f3, xz := x_f4, yz := x_f5 } else none }
+        match compileBody env ifg b with
+        | .ok c => compiledLine c
+        | .error k => "err " ++ k.token
+      | _ => "bad-op"
+    | _, _, _, _, _, _, _, _ => "bad-op"
+  | _ => "bad-op"
+
+def stepProg (toks : List String) : String :=
+  match toks with
+  | ["infer"] => " ".intercalate (inferProg.map Instr.token)
+  | ["apply"] => " ".intercalate (applyProg.map Instr.token)
+  | _ => "bad-op"
+
 def step (line : String) : String :=
   match words line with
+  | "prog" :: toks => stepProg toks
+  | "aspec" :: toks => stepAspec toks
+  | "resolve" :: toks => stepResolve toks
   | op :: toks =>
     match toks.mapM floatOfBits? with
     | none => "bad-op"
